@@ -40,3 +40,30 @@ def classify(prop, failure, findings):
         except Exception:
             continue
     return None
+
+
+# ------------------------------------------------------------------ predicates (mechanism-keyed)
+
+
+def _group_native_sums(case, valspec):
+    """exact per-group sums of the selected non-null values in the value's *native* unit."""
+    from . import gen, model
+
+    lk = gen.logical_keys(case["keys"])
+    sel = gen.mask_selection(case.get("mask"), case["n"])
+    return model.reductions(lk, valspec["vals"], sel, "sum")
+
+
+@predicate("dt_mean_int64_overflow")
+def _dt_mean_overflow(prop, failure):
+    """mean of datetime values whose exact per-group sum of epoch offsets leaves the int64 range:
+    the library sums the raw epoch integers in int64 before dividing (wraps)."""
+    case = failure.get("case") or {}
+    sig = failure.get("sig") or ""
+    if not failure.get("monitor", "").endswith(".value") or not sig.startswith("mean|M"):
+        return False
+    vs = case.get("val")
+    if not vs or not vs["dtype"].startswith("datetime64"):
+        return False
+    sums = _group_native_sums(case, vs)
+    return any(not (-(2**63) <= s < 2**63) for s in sums.values())
